@@ -252,3 +252,76 @@ func VPH_itemPaths() {
 	}
 	vp_Reach("end")
 }
+
+// VPH_refgroupRows (C07): the References section of the report for a refgroup
+// hierarchy of any depth up to the bound: one row per group that tallied a
+// reference, in the given order, under its display name, indented by its
+// nesting depth, showing its own tally; groups without a tally and the
+// top-level pseudo group print nothing; no failure however deep.
+func VPH_refgroupRows() {
+	depth := 1 + vp_Choice("depth", vp_Param("maxdepth"))
+	var hs HistorySize
+	hs.ReferenceGroups = map[RefGroupSymbol]*counts.Count32{}
+	groups := []RefGroup{{Symbol: "", Name: "Refs to walk"}}
+	sym := ""
+	var wantRows []string
+	var wantVals []uint64
+	for d := 1; d <= depth; d++ {
+		if d > 1 {
+			sym += "."
+		}
+		sym += "g" + string(rune('a'+d%26))
+		name := "Group" + string(rune('A'+d%26))
+		groups = append(groups, RefGroup{Symbol: RefGroupSymbol(sym), Name: name})
+		if vp_Choice("tallied", 2) == 1 {
+			n := counts.Count32(100 + d)
+			hs.ReferenceGroups[RefGroupSymbol(sym)] = &n
+			wantRows = append(wantRows, strings.Repeat("  ", 2+d-1)+"* "+name)
+			wantVals = append(wantVals, uint64(100+d))
+		}
+	}
+	groups = append(groups, RefGroup{Symbol: "ignored", Name: "Ignored"})
+	ig := counts.Count32(7)
+	hs.ReferenceGroups["ignored"] = &ig
+	hs.ReferenceGroups[""] = &ig // the top-level tally is never a row
+	wantRows = append(wantRows, strings.Repeat("  ", 2)+"* Ignored")
+	wantVals = append(wantVals, 7)
+	hs.ReferenceCount = 12345
+
+	var rendered []uint64
+	if !vp_Native() {
+		vp_Stub("(*github.com/github/git-sizer/counts.Humaner).Format", func(h *counts.Humaner, v counts.Humanable, unit string) (string, string) {
+			n, _ := v.ToUint64()
+			rendered = append(rendered, n)
+			return "1", unit
+		})
+	}
+	var out string
+	panicked := vp_Catch(func() { out = hs.TableString(groups, 0, NameStyleNone) })
+	vp_Assert(!panicked, "the report is produced without failure, however deeply the refgroups are nested")
+	if panicked {
+		return
+	}
+	lines := strings.Split(out, "\n")
+	// rows of the References section, in order
+	idx := 0
+	for _, l := range lines {
+		if idx < len(wantRows) && strings.HasPrefix(l, "| "+wantRows[idx]+" ") {
+			idx++
+		}
+	}
+	vp_Assert(idx == len(wantRows), "one row per tallied group, in order, under its display name, indented by its depth")
+	vp_Assert(!strings.Contains(out, "Refs to walk"), "the top-level pseudo group is not a row")
+	vp_Assert(strings.Count(out, "* Group") == len(wantRows)-1, "groups without a tally print nothing")
+	if !vp_Native() {
+		// the numerals rendered for those rows are the groups' own tallies (after the 9 size rows and the reference count)
+		found := 0
+		for _, v := range rendered {
+			if found < len(wantVals) && v == wantVals[found] {
+				found++
+			}
+		}
+		vp_Assert(found == len(wantVals), "each refgroup row shows its own tally")
+	}
+	vp_Reach("end")
+}
